@@ -1222,7 +1222,48 @@ def _dict_items(it, a, k, n):
     d = a[0]
     if d.concrete:
         return VList([VTuple([_unhash(*kk), v]) for kk, v in d.items.items()])
-    raise Unsupported("items() of symbolic dict")
+    return _symbolic_dict_view(it, d, n, "items")
+
+
+def _symbolic_dict_view(it, d, node, what):
+    """iteration over a symbolic dict: an enumeration of its keys -- n = number of entries, K[0..n) the keys in iteration
+    order, POS the inverse (ghost witness: position of a key).  Trusted encoding: every K[i] is present and sits at position
+    i (hence the keys are distinct), every present key is enumerated.  The snapshot semantics of a for loop over
+    d.items() are kept only if the loop does not change d (a change raises RuntimeError in CPython; not modelled)."""
+    from .loops import View
+    from .values import unflatten
+    from .symex import QRANGES
+    ctx = it.ctx
+    ks = d.present.sort().domain()
+    nlen = z3.Int(ctx.fresh_name("dict_n"))
+    K = z3.Array(ctx.fresh_name("dict_keys"), z3.IntSort(), ks)
+    POS = z3.Function(ctx.fresh_name("dict_pos"), ks, z3.IntSort())
+    i = z3.Int(ctx.fresh_name("i_dict"))
+    x = z3.Const(ctx.fresh_name("k_dict"), ks)
+    present, arrs, shape, keykind = d.present, list(d.arrs), d.shape, d.keykind
+    QRANGES[i.decl().name()] = (z3.IntVal(0), nlen)
+    ctx.assume(nlen >= 0, "dict-iteration:length>=0")
+    ctx.assume(z3.ForAll([i], z3.Implies(z3.And(i >= 0, i < nlen),
+                                         z3.And(z3.Select(present, z3.Select(K, i)), POS(z3.Select(K, i)) == i))),
+               "dict-iteration:enumerated-keys-are-present-and-distinct")
+    ctx.assume(z3.ForAll([x], z3.Implies(z3.Select(present, x),
+                                         z3.And(POS(x) >= 0, POS(x) < nlen, z3.Select(K, POS(x)) == x))),
+               "dict-iteration:every-present-key-is-enumerated")
+
+    def key_at(j):
+        kz = z3.Select(K, j)
+        return VStr(kz, "str" if keykind == "str" else "bytes") if keykind in ("str", "bytes") else VInt(kz)
+
+    def get(j):
+        kv = key_at(j)
+        if what == "keys":
+            return kv
+        val = unflatten(shape, [z3.Select(a, key_z(kv)) for a in arrs])
+        return val if what == "values" else VTuple([kv, val])
+    # the enumeration is visible to specification text (loop invariants): ghost_dict_key(j), ghost_dict_pos(k)
+    it.ghost["dict_key"] = VBuiltin("ghost:dict_key", lambda it2, a2, k2, nn: key_at(as_int(it2.need(a2[0]))))
+    it.ghost["dict_pos"] = VBuiltin("ghost:dict_pos", lambda it2, a2, k2, nn: VInt(POS(key_z(it2.need(a2[0])))))
+    return View(nlen, get)
 
 
 def _dict_keys(it, a, k, n):
